@@ -494,4 +494,49 @@ def sameFormula (t : Entry × Entry × Entry) : Bool :=
 /-- No entry point reads a default-initialised (indeterminate) number. -/
 def checkNoUninit (e : Entry) : Bool := !e.tree.readsUninit
 
+/-! ### The positive fragment (few-ulps bounds) -/
+
+/-- Is the literal `m·2^e` exactly representable in format `f` (its rounding is itself)? -/
+def litExact (f : Fmt) (m : Nat) (e : Int) : Bool :=
+  match Fl.roundE f false m e with
+  | .fin false m' q' =>
+    let d := min q' e
+    m' * 2 ^ (q' - d).toNat == m * 2 ^ (e - d).toNat
+  | _ => false
+
+/-- If `e` is built from inputs, positive literals, `×`, `÷`, `+`, `√`, positive integer powers and
+format conversions only, all computed with at least `pmin` bits of precision: the number `k` of
+unit round-offs `2^-pmin` its computed value can be away from its exact value on positive inputs
+(`Theory/RelErr.lean`: `posFrag_sound`). -/
+def posFrag (pmin : Nat) : Expr → Option Nat
+  | .var _ _ => some 0
+  | .lit f s m e =>
+    if !s && m != 0 then
+      (if litExact f.fmt m e then some 0 else if pmin ≤ f.fmt.p then some 1 else none)
+    else none
+  | .pi f m _ => if m != 0 && decide (pmin ≤ f.fmt.p) then some 1 else none
+  | .bin op f a b =>
+    match posFrag pmin a, posFrag pmin b with
+    | some ka, some kb =>
+      if pmin ≤ f.fmt.p then
+        (match op with
+         | .mul | .div => some (ka + kb + 1)
+         | .add => some (max ka kb + 1)
+         | _ => none)
+      else none
+    | _, _ => none
+  | .un .sqrt f a =>
+    match posFrag pmin a with
+    | some ka => if pmin ≤ f.fmt.p then some ((ka + 1) / 2 + 2) else none
+    | none => none
+  | .cast f a =>
+    match posFrag pmin a with
+    | some ka => if pmin ≤ f.fmt.p then some (ka + 1) else none
+    | none => none
+  | .powi f n a =>
+    match posFrag pmin a with
+    | some ka => if 0 < n ∧ pmin ≤ f.fmt.p then some (ka * n.toNat + 1) else none
+    | none => none
+  | _ => none
+
 end PhQVerif
